@@ -116,8 +116,9 @@ def pow2(x):
     return (D(2).ln() * D(x)).exp()
 
 
-def close(a, b, rel=2.0 ** -30):
-    return abs(D(a) - D(b)) <= D(rel) * max(abs(D(a)), abs(D(b))) + D(TINY)
+def close(a, b, rel=2.0 ** -30, amp=0.0):
+    """|a-b| <= rel max(|a|,|b|) + one subnormal ulp (times 1+amp: a subnormal factor multiplied by amp)"""
+    return abs(D(a) - D(b)) <= D(rel) * max(abs(D(a)), abs(D(b))) + D(TINY) * (1 + D(abs(amp)))
 
 
 class Fails(list):
@@ -155,7 +156,7 @@ def direct_case(fails, iso, j, ai, inp, rest, o, rng, full):
     # rest decay: exactly 2^(-t/T)
     for ti, v in zip(rest, vals):
         want = D(vals[0]) * pow2(-D(ti) / D(ai.Thalf_hrs))
-        if not close(v, want):
+        if not close(v, want, amp=vals[0]):
             fails.add("C14:rest-decay", "activity after %r h is %r, 2^(-t/T) x activity at removal is %s"
                       % (ti, v, want), observed=v, expected=str(want), **where)
     if not full:
